@@ -436,6 +436,29 @@ example : decodeNode (some (ofS "koi8-r")) [] (.tag (ofS "meta") (newTagAttrs (o
 example : decodeNode (some (ofS "koi8-r")) [] (.tag (ofS "meta") (newTagAttrs (ofS "meta") [(ofS "charset", .plain (ofS "utf8"))] []) [])
     = ofS "<meta charset=\"koi8-r\"/>" := by decide
 
+/-- **Known finding `C08-meta-item-assignment`, as a theorem about the code mirror.** A declaration written by item
+    assignment — `m = soup.new_tag('meta'); m['charset'] = 'utf8'`, or assigning again over the placeholder of a parsed
+    `<meta>`, with the same text or another — is NOT a placeholder: whatever the attributes were before, the value found
+    afterwards is the plain string, and rendering for any target `e` writes that string back unchanged. -/
+theorem item_assigned_not_placeholder (k v : PStr) (attrs : List (PStr × AttrVal)) (e : PStr) :
+    lookupAttr k (setItem k v attrs) = some (.plain v)
+    ∧ (lookupAttr k (setItem k v attrs)).map (attrValue (some e)) = some v := by
+  simp [setItem, lookup_setAttr, attrValue]
+
+/-- decided witnesses: the rendered declaration keeps the stale name — on a fresh `<meta>`, over a parsed HTML5 placeholder
+    (same text re-assigned), and over a parsed HTML4 placeholder — while the untouched parsed tag is rewritten -/
+theorem item_assigned_declaration_stale :
+    decodeNode (some (ofS "koi8-r")) [] (.tag (ofS "meta") (setItem (ofS "charset") (ofS "utf8") (newTagAttrs (ofS "meta") [] [])) [])
+      = ofS "<meta charset=\"utf8\"/>"
+    ∧ decodeNode (some (ofS "koi8-r")) [] (.tag (ofS "meta")
+        (setItem (ofS "charset") (ofS "utf8") (setUpSubstitutions (ofS "meta") [(ofS "charset", .plain (ofS "utf8"))])) [])
+      = ofS "<meta charset=\"utf8\"/>"
+    ∧ decodeNode (some (ofS "koi8-r")) [] (.tag (ofS "meta") (setItem (ofS "content") (ofS "text/html; charset=utf8")
+        (setUpSubstitutions (ofS "meta") [(ofS "http-equiv", .plain (ofS "Content-Type")),
+          (ofS "content", .plain (ofS "text/html; charset=utf8"))])) [])
+      = ofS "<meta content=\"text/html; charset=utf8\" http-equiv=\"Content-Type\"/>"
+    ∧ decodeNode (some (ofS "koi8-r")) [] metaCharset = ofS "<meta charset=\"koi8-r\"/>" := by decide
+
 /-- `<meta charset="utf-8" content="text/html; charset=utf-8" http-equiv="content-type">` -/
 def metaBothAttrs : List (PStr × AttrVal) :=
   [(ofS "charset", .plain (ofS "utf-8")), (ofS "content", .plain (ofS "text/html; charset=utf-8")),
